@@ -166,7 +166,7 @@ def run_witnesses(repo, root, units, violations, work):
             for v in violations:
                 if v['unit'] != name:
                     continue
-                mine = [f for f in failing if v['fn'] in table.get(f['name'], {}).get('fns', [v['fn']])]
+                mine = [f for f in failing if v['fn'] == '*' or v['fn'] in table.get(f['name'], {}).get('fns', [v['fn']])]
                 for f in mine:
                     f['input'] = table.get(f['name'], {}).get('input', '')
                 res[v['id']] = dict(ran=ran, failing=mine, log=(outp[-3000:] if mine else '') + ('' if ran else errp[-1500:]),
@@ -184,7 +184,7 @@ def replay_file(path, repo, root):
     u = units[unit]
     work = os.path.join(root, '.work', 'replay')
     os.makedirs(work, exist_ok=True)
-    v = dict(unit=unit, fn=rec['obligation'].split('::', 1)[1].rsplit('::', 1)[0], id=rec['obligation'])
+    v = dict(unit=unit, fn='*' if rec.get('kind') == 'witness' else rec['obligation'].split('::', 1)[1].rsplit('::', 1)[0], id=rec['obligation'])
     if rec.get('failing_inputs'):
         w = run_witnesses(repo, root, units, [v], work).get(v['id'], {})
         names = {f['name'] for f in rec['failing_inputs']}
